@@ -127,23 +127,55 @@ fn handle(line: &str) -> Result<String, String> {
     }
 }
 
+fn answer_of(line: &str) -> String {
+    let res = catch_unwind(AssertUnwindSafe(|| handle(line)));
+    match res {
+        Ok(Ok(s)) => s,
+        Ok(Err(e)) => format!("bad-request {e}"),
+        Err(_) => "panic".to_string(),
+    }
+}
+
+/// Requests about the attack tables and the move generator are answered twice: on the thread that ran
+/// `init()` and on a worker thread started afterwards (the engine searches on spawned threads); the two
+/// answers must be the same.
+fn two_threads(line: &str) -> bool {
+    matches!(
+        line.split('\t').next().unwrap_or(""),
+        "rook" | "bishop" | "knight" | "king" | "pawn" | "between" | "moves"
+    )
+}
+
 pub fn serve() {
     let stdin = std::io::stdin();
     let stdout = std::io::stdout();
     let mut out = std::io::BufWriter::new(stdout.lock());
+    let (tx_req, rx_req) = std::sync::mpsc::channel::<String>();
+    let (tx_ans, rx_ans) = std::sync::mpsc::channel::<String>();
+    let worker = std::thread::spawn(move || {
+        for line in rx_req {
+            if tx_ans.send(answer_of(&line)).is_err() {
+                break;
+            }
+        }
+    });
     for line in stdin.lock().lines() {
         let Ok(line) = line else { break };
         if line.is_empty() {
             continue;
         }
-        let res = catch_unwind(AssertUnwindSafe(|| handle(&line)));
-        let answer = match res {
-            Ok(Ok(s)) => s,
-            Ok(Err(e)) => format!("bad-request {e}"),
-            Err(_) => "panic".to_string(),
-        };
+        let mut answer = answer_of(&line);
+        if two_threads(&line) {
+            tx_req.send(line.clone()).unwrap();
+            let other = rx_ans.recv().unwrap_or_else(|_| "worker-died".to_string());
+            if other != answer {
+                answer = format!("thread-mismatch init-thread=[{answer}] worker-thread=[{other}]");
+            }
+        }
         writeln!(out, "{answer}").unwrap();
     }
+    drop(tx_req);
+    let _ = worker.join();
     out.flush().unwrap();
 }
 
